@@ -204,6 +204,23 @@ func genRefCase(r *rng, id string) *ValCase {
 	if r.chance(1, 6) && len(defs) > 0 {
 		hold("#") // the root itself (recursion through a property)
 	}
+	if r.chance(1, 6) {
+		// an anchor name under the wrong resource: anchors are scoped to the resource that declares
+		// them (the root's "rootanc", an embedded resource's "ea", a loaded document's "ra"), so
+		// none of these designates anything and Resolve must fail
+		var wrong []string
+		for _, t := range targets {
+			for _, ref := range t.refs {
+				switch {
+				case strings.HasSuffix(ref, "#ea"), strings.HasSuffix(ref, "#ra"):
+					wrong = append(wrong, strings.TrimSuffix(strings.TrimSuffix(ref, "ea"), "ra")+"rootanc", "#"+ref[len(ref)-2:])
+				}
+			}
+		}
+		if len(wrong) > 0 {
+			hold(pick(r, wrong))
+		}
+	}
 	root := DObj{}
 	if rootID != "" {
 		root = append(root, DMem{"$id", DStr(rootID)})
